@@ -165,7 +165,7 @@ class Trial:
                         self.bad.append(("loopback-under-foreign-id", name, tubref.getTubID(), None))
                     continue
                 cid = independent_tubid(tr.peer_cert)
-                if cid != tubref.getTubID():
+                if cid is None or cid != tubref.getTubID():
                     self.bad.append(("table-entry-unproven", name, tubref.getTubID(), cid))
                 if b.remote_tubref is None or b.remote_tubref.getTubID() != tubref.getTubID():
                     self.bad.append(("broker-tubref-differs-from-key", name, tubref.getTubID(),
@@ -242,7 +242,7 @@ def judge(ctx, tag, cfg, t):
             if key != t.tubs[name].tubID:
                 problems.append(("loopback-under-foreign-id", name, key, None))
             continue
-        if cid != key:
+        if cid is None or key is None or cid != key:
             problems.append(("attached-unproven", name, key, cid))
         if is_client and key != dial:
             problems.append(("client-attached-other-than-dialled", name, key, dial))
@@ -288,3 +288,184 @@ def run_cell(cfg, extra_mangle=None):
     finally:
         t.close()
     return t
+
+
+# ------------------------------------------------------------------------------------------ inbound reference URLs
+def url_tubid(url):
+    """tub id named by a FURL, parsed WITHOUT foolscap: text between pb:// and @, first 32 characters"""
+    if url is None or not url.startswith("pb://") or "@" not in url:
+        return None
+    return url[5:url.index("@")][:32]
+
+
+class Env3:
+    """three honest Tubs on one network, with the brokerAttached watcher and live-table oracle of Trial"""
+
+    def __init__(self, a_pos):
+        self.t = Trial(dict(a_pos=a_pos))
+        self.net, self.ids, self.tubs = self.t.net, self.t.ids, self.t.tubs
+        self.A, self.B, self.C = self.t.A, self.t.B, self.t.C
+
+    def settle(self, res=None):
+        self.t.settle(res if res is not None else [1])
+
+    def close(self):
+        self.t.close()
+
+
+def url_trial(a_pos, kind):
+    env = Env3(a_pos)
+    A, B, ids = env.A, env.B, env.ids
+    problems = []
+    try:
+        g = T()
+        svc = T()
+        svc.gift = g
+        furl = B.registerReference(svc, name="svc")
+        forged = {"B": "pb://%s@fake:b:1/g" % ids["B"], "C": "pb://%s@fake:c:1/g" % ids["C"],
+                  "A": "pb://%s@fake:a:1/g" % ids["A"], "upper": "pb://%s@fake:b:1/g" % ids["B"].upper(),
+                  "ext": "pb://%sa@fake:b:1/g" % ids["B"], "prefix": "pb://%s@fake:b:1/g" % ids["B"][:31],
+                  "garbage": "pb://!!!@fake:b:1/g", "nourl": None}[kind]
+        orig = B.getOrCreateURLForReference
+        B.getOrCreateURLForReference = lambda ref: forged if ref is g else orig(ref)   # the peer is dishonest, not /repo
+        res = []
+        A.getReference(furl).addCallback(lambda rr: rr.callRemote("give")).addBoth(res.append)
+        env.settle(res)
+        got = res[0] if res else None
+        accepted = got is not None and hasattr(got, "tracker") and hasattr(got, "callRemote")
+        result = "RemoteReference" if accepted else (got.type.__name__ if hasattr(got, "type") else repr(got))
+        # the property on what A now holds: every URL-carrying reference names the id its connection is registered under,
+        # and that connection's certificate hashes to it
+        for tubref, b in A.brokers.items():
+            cid = independent_tubid(b.transport.peer_cert) if isinstance(b.transport, E.End) else None
+            for tr in b.yourReferenceByCLID.values():
+                u = getattr(tr, "url", None)
+                if u is not None and (url_tubid(u) != tubref.getTubID() or url_tubid(u) != cid):
+                    problems.append(("reference-names-unproven-tub", "A holds a reference with URL %s over the connection registered "
+                                     "under %s whose certificate hashes to %s" % (u, tubref.getTubID(), cid)))
+        if accepted:
+            u = got.tracker.url
+            if u is not None and url_tubid(u) != ids["B"]:
+                problems.append(("reference-names-unproven-tub", "A accepted from B a reference with URL %s" % u))
+        if kind == "B" and not accepted:
+            problems.append(("honest-reference-refused", "a reference with B's own URL was refused: %s" % result))
+        problems += [(p[0], repr(p[1:])) for p in env.t.bad]
+        return dict(a_pos=a_pos, kind=kind, url=forged, url_id=url_tubid(forged) if forged else None, key=ids["B"],
+                    accepted=accepted, result=result, problems=problems)
+    finally:
+        env.close()
+
+
+def gift_trial(a_pos, target_honest):
+    env = Env3(a_pos)
+    A, B, C, ids = env.A, env.B, env.C, env.ids
+    problems = []
+    try:
+        c_obj = T()
+        furl_c = C.registerReference(c_obj, name="cobj")
+        svc = T()
+        furl_b = B.registerReference(svc, name="svc")
+        r0 = []
+        B.getReference(furl_c).addBoth(r0.append)
+        env.settle(r0)
+        if not r0 or not hasattr(r0[0], "callRemote"):
+            return dict(delivered=False, problems=[("harness-setup", "B could not reach C: %r" % (r0,))])
+        svc.gift = r0[0]
+        if not target_honest:
+            C.presented_cert = B.myCertificate      # whoever answers at C's location now proves B's identity, still claims C
+        res = []
+        A.getReference(furl_b).addCallback(lambda rr: rr.callRemote("give")).addCallback(
+            lambda g: g.callRemote("hi")).addBoth(res.append)
+        env.settle(res)
+        delivered = res == [42]
+        att_c = [(n, k, ic, cid) for (n, k, ic, cid) in env.t.attached if n == "A" and k == ids["C"]]
+        if delivered and not any(cid == ids["C"] for (_, _, _, cid) in att_c):
+            problems.append(("gift-used-without-proof", "A used a reference naming C without a connection proven to be C: %r" % (env.t.attached,)))
+        for (n, k, ic, cid) in env.t.attached:
+            if cid != "loopback" and (cid is None or cid != k):
+                problems.append(("attached-unproven", "Tub %s registered %s over a connection whose certificate hashes to %s" % (n, k, cid)))
+        if target_honest and not delivered:
+            problems.append(("honest-gift-refused", "gift naming honest C was not delivered: %r" % (res,)))
+        if not target_honest and delivered:
+            problems.append(("gift-used-without-proof", "gift delivered although C's location proved another identity"))
+        problems += [(p[0], repr(p[1:])) for p in env.t.bad]
+        return dict(delivered=delivered, result=[getattr(x, "type", x).__name__ if hasattr(x, "type") else x for x in res],
+                    problems=problems)
+    finally:
+        env.close()
+
+
+# ------------------------------------------------------------------------------------------ histories on Tub A
+def history_trial(rng, length):
+    a_pos = rng.choice(["hi", "lo"])
+    env = Env3(a_pos)
+    A, ids, net = env.A, env.ids, env.net
+    tubs = env.tubs
+    problems, ops, model_ops, tables = [], [], [], []
+    cur = dict(first_link=10 ** 9, side=None, claim=None)
+
+    def mangle(link, side, d):
+        idx = net.links.index(link)
+        if idx < cur["first_link"] or side != cur["side"] or cur["claim"] is None:
+            return d
+        return rewrite_claim(d, cur["claim"][0], ids, cur["claim"][1], [])
+    net.mangle = mangle
+    try:
+        for name in "ABC":
+            tubs[name].registerReference(T(), name="svc")
+        for i in range(length):
+            kind = rng.choice(["out", "out", "in", "in", "detach", "loopback"])
+            if kind in ("out", "in"):
+                x = rng.choice(["B", "C"])
+                other = "C" if x == "B" else "B"
+                cert = rng.choice([x, x, x, "none", other, "A"])
+                claim = rng.choice([None, None, None, "absent", other, "garbage", "upper", "empty", "A"])
+                if cert != x and claim == cert:
+                    claim = None              # keep impersonation-with-proof out of histories (see matrix cells for those)
+                claim_s = ids[x] if claim is None else claim_value(claim, ids, ids[x])
+                cur.update(first_link=len(net.links), side=1 if kind == "out" else 0, claim=None if claim is None else (claim, ids[x]))
+                if cert != x:
+                    tubs[x].presented_cert = env.t.certs[cert]
+                res = []
+                if kind == "out":
+                    A.getReference("pb://%s@fake:%s:1/svc" % (ids[x], x.lower())).addBoth(res.append)
+                    model_ops.append(("neg", "Client", x, cert, claim_s, True, False))
+                else:
+                    tubs[x].getReference("pb://%s@fake:a:1/svc" % ids["A"]).addBoth(res.append)
+                    model_ops.append(("neg", "Server", None, cert, claim_s, True, False))
+                env.settle(res)
+                if cert != x:
+                    del tubs[x].presented_cert
+                cur.update(first_link=10 ** 9)
+                ops.append((kind, x, cert, claim))
+            elif kind == "detach":
+                x = rng.choice(["B", "C"])
+                for tr, b in list(A.brokers.items()):
+                    if tr.getTubID() == ids[x]:
+                        b.transport.loseConnection()
+                env.settle()
+                ops.append(("detach", x))
+                model_ops.append(("detach", x))
+            else:
+                res = []
+                A.getReference("pb://%s@fake:a:1/svc" % ids["A"]).addBoth(res.append)
+                env.settle(res)
+                ops.append(("loopback",))
+                model_ops.append(("loopback",))
+            tab = []
+            for tr, b in A.brokers.items():
+                if isinstance(b.transport, E.End):
+                    tab.append((tr.getTubID(), independent_tubid(b.transport.peer_cert), False))
+                else:
+                    tab.append((tr.getTubID(), None, True))
+            tables.append(sorted(tab, key=repr))
+        for (n, k, ic, cid) in env.t.attached:
+            if cid == "loopback":
+                if k != tubs[n].tubID:
+                    problems.append(("loopback-under-foreign-id", "Tub %s registered a loopback under %s" % (n, k)))
+            elif cid is None or cid != k:
+                problems.append(("attached-unproven", "Tub %s registered %s over a connection whose certificate hashes to %s" % (n, k, cid)))
+        problems += [(p[0], repr(p[1:])) for p in env.t.bad]
+        return dict(a_pos=a_pos, ops=ops, model_ops=model_ops, tables=tables, problems=problems)
+    finally:
+        env.close()
